@@ -9,7 +9,7 @@ mkdir -p $BOX/repo $BOX/verif
 rsync -a --delete --exclude target /repo/ $BOX/repo/
 rsync -a --delete --exclude .git --exclude replays /verif/ $BOX/verif/
 mkdir -p $BOX/verif/replays
-SEEDS="$*"; [ -z "$SEEDS" ] && SEEDS=$(ls /verif/seeded)
+SEEDS="$*"; [ -z "$SEEDS" ] && SEEDS=$(ls /verif/seeded | tr "\n" " ")
 unshare -m bash -c "
 mount --rbind $BOX/repo /repo && mount --rbind $BOX/verif /verif && cd /verif || exit 2
 for S in $SEEDS; do
